@@ -37,6 +37,16 @@ def vocabulary_of(prog):
     return sorted({strip_generics(b.path) for b in prog.bodies if b.kind in ("fn", "assoc_fn")})
 
 
+_PRIMS = {"bool", "char", "str", "usize", "isize", "u8", "u16", "u32", "u64", "u128", "i8", "i16", "i32", "i64", "i128", "f32", "f64",
+          "Self", "dyn", "impl", "mut", "const", "fn", "for", "as", "static"}
+
+
+def _canon_generic(ty):
+    """type string with the names of type parameters (bare identifiers, no path) replaced by `$`: a renamed type parameter
+    (`T` -> `Cmd`) does not change a signature"""
+    return re.sub(r"(?<![\w:'])([A-Za-z_]\w*)(?![\w:])", lambda m: m.group(1) if m.group(1) in _PRIMS else "$", ty)
+
+
 def new_helpers(prog, vocab):
     out = {}
     # a function that is not in the vocabulary while a vocabulary function of the same module / impl has disappeared is a
@@ -49,7 +59,7 @@ def new_helpers(prog, vocab):
     for v in vocab:
         if v not in present:
             missing[v.rsplit("::", 1)[0]] = missing.get(v.rsplit("::", 1)[0], 0) + 1
-            missing_sigs.setdefault(v.rsplit("::", 1)[0], []).append(sigs.get(v))
+            missing_sigs.setdefault(v.rsplit("::", 1)[0], []).append([_canon_generic(x) for x in sigs[v]] if v in sigs else None)
     for b in prog.bodies:
         if b.kind not in ("fn", "assoc_fn"):
             continue
@@ -59,7 +69,8 @@ def new_helpers(prog, vocab):
             ps = sigs.get(strip_generics(b.path))
             cs = [b.local_ty(i) for i in range(1, b.arg_count + 1)]
             if ps and len(ps) == len(cs) and b.raw.get("reachable") is not True and not b.raw.get("impl_trait") and b.n <= 120 \
-                    and any(c != p and (c.startswith("impl ") or c in (b.raw.get("generics") or [])) for c, p in zip(cs, ps)) \
+                    and any(c != p and _canon_generic(c) != _canon_generic(p) and (c.startswith("impl ") or c in (b.raw.get("generics") or []))
+                            for c, p in zip(cs, ps)) \
                     and not any(fr is not None and prog.resolve_local(fr) is b for _, _, fr in b.iter_calls()) \
                     and not prog.fn_value_uses(lambda n, p_=b.path: n == p_):
                 out[b.path] = b
@@ -68,7 +79,7 @@ def new_helpers(prog, vocab):
         if missing.get(pre, 0) > 0:
             # renamed = takes the place of a vanished function *with the same parameter types* (when the pinned
             # signatures are known); a new function with another signature is a helper even if functions vanished
-            cs_ = [b.local_ty(i) for i in range(1, b.arg_count + 1)]
+            cs_ = [_canon_generic(b.local_ty(i)) for i in range(1, b.arg_count + 1)]
             ms_ = missing_sigs.get(pre, [])
             if any(m_ is None for m_ in ms_) or cs_ in ms_:
                 missing[pre] -= 1
